@@ -51,6 +51,11 @@ func (g *c09Gen) scalar() ME {
 func (g *c09Gen) arr() ME {
 	e := ME{K: "arr"}
 	for j := drawInt(g.t, 0, 3, "narr"); j > 0; j-- {
+		if g.own > 0 && drawInt(g.t, 0, 3, "lf") == 0 {
+			// the position in the loop the literal stands in
+			e.Args = append(e.Args, ME{K: "loopfield", S: pick(g.t, "lff", []string{"Counter", "Counter0", "Revcounter", "Last"})})
+			continue
+		}
 		e.Args = append(e.Args, g.scalar())
 	}
 	return e
